@@ -59,7 +59,51 @@ pub enum Site {
     AirdropInit,
     BaseMint { price: u128, bps: u64 },
     /// `by_creator`: a public mint sent by the collection's creator (who is also the seller)
-    Mint { minter: MinterKind, mode: MintMode, native: bool, price: u128, bps: u64, by_creator: bool },
+    /// `dev`: what governance configured as the open-edition factory's dev_fee_address
+    /// (None: the default, a valid account)
+    Mint {
+        minter: MinterKind,
+        mode: MintMode,
+        native: bool,
+        price: u128,
+        bps: u64,
+        by_creator: bool,
+        #[serde(default)]
+        dev: Option<DevCfg>,
+    },
+}
+
+/// The developer of the open-edition factory as the ledger has it: the string governance
+/// put into `dev_fee_address`, at instantiate or by a later sudo UpdateParams.  Any string
+/// can be configured; whether the chain's address rules accept it is a separate matter.
+#[derive(Clone, Debug, Serialize, Deserialize, PartialEq, Eq, PartialOrd, Ord)]
+pub struct DevCfg {
+    pub address: String,
+    pub by_sudo: bool,
+    /// the minter is created with the payment address PAYADDR (whitelist mode only); used
+    /// with `address` = PAYADDR
+    #[serde(default)]
+    pub with_payment_address: bool,
+}
+pub const PAYADDR: &str = crate::w_sale::PAYADDR;
+
+/// the chain's own answer about an address string (an oracle for the model)
+pub fn chain_accepts_address(s: &str) -> bool {
+    use cosmwasm_std::Api;
+    cosmwasm_std::testing::MockApi::default().addr_validate(s).is_ok()
+}
+/// what anybody would call a well-formed account name on this chain: if the configured
+/// developer is not one, a mint may be refused for it
+fn plain_address(s: &str) -> bool {
+    (3..=90).contains(&s.len()) && s.bytes().all(|b| b.is_ascii_lowercase() || b.is_ascii_digit())
+}
+fn oe_sudo_dev(app: &mut App, factory: &Addr, address: &str) -> Result<(), String> {
+    let msg = json!({"update_params": {
+        "code_id": null, "add_sg721_code_ids": null, "rm_sg721_code_ids": null, "frozen": null,
+        "creation_fee": null, "min_mint_price": null, "mint_fee_bps": null, "max_trading_offset_secs": null,
+        "extension": {"max_token_limit": null, "max_per_address_limit": null, "min_mint_price": null,
+            "airdrop_mint_price": null, "airdrop_mint_fee_bps": null, "dev_fee_address": address}}});
+    wf::sudo_json(app, factory, &msg).map(|_| ()).map_err(|e| format!("sudo update_params(dev_fee_address): {}", e))
 }
 
 #[derive(Clone, Debug, Serialize, Deserialize, PartialEq, Eq, PartialOrd, Ord)]
@@ -479,19 +523,42 @@ fn stage_case(c: &SiteCase) -> Result<(Stage, Probe), String> {
                 wf::exec_json(app, wf::CREATOR, &m, &json!({"mint": {"token_uri": "ipfs://bafybeiavall5udkxkdtdm4djezoxrmfc6o5fn2ug3ymrlvibvwmwydgrkm/1.jpg"}}), &funds)
             }))
         }
-        Site::Mint { minter, mode, native, price, bps, by_creator } => run_mint(*minter, *mode, *native, *price, *bps, *by_creator, funds),
+        Site::Mint { minter, mode, native, price, bps, by_creator, dev } => run_mint(*minter, *mode, *native, *price, *bps, *by_creator, dev.clone(), funds),
     }
 }
 
-fn run_mint(minter: MinterKind, mode: MintMode, native: bool, price: u128, bps: u64, by_creator: bool, funds: Vec<Coin>) -> Result<(Stage, Probe), String> {
+#[allow(clippy::too_many_arguments)]
+fn run_mint(
+    minter: MinterKind,
+    mode: MintMode,
+    native: bool,
+    price: u128,
+    bps: u64,
+    by_creator: bool,
+    devcfg: Option<DevCfg>,
+    funds: Vec<Coin>,
+) -> Result<(Stage, Probe), String> {
     let d = denom_of(native).to_string();
-    let dev = if is_oe(minter) { Some(wf::DEV_ADDRESS.to_string()) } else { None };
+    let devcfg = if is_oe(minter) { devcfg } else { None };
+    // the developer account the ledger names (an empty string names nobody)
+    let ledger_dev = |default: &str| -> Option<String> {
+        match &devcfg {
+            Some(c) if c.address.is_empty() => None,
+            Some(c) => Some(c.address.clone()),
+            None => Some(default.to_string()),
+        }
+    };
+    let dev = if is_oe(minter) { ledger_dev(wf::DEV_ADDRESS) } else { None };
     match mode {
         MintMode::Public | MintMode::Airdrop => {
             let airdrop = mode == MintMode::Airdrop;
             let dd = d.clone();
+            let at_instantiate = devcfg.as_ref().filter(|c| !c.by_sudo).map(|c| c.address.clone());
             let w = wf::setup_minter_with(minter, |p, req| {
                 p.min_mint_price = (dd.clone(), 1);
+                if let Some(a) = &at_instantiate {
+                    p.dev_fee_address = a.clone();
+                }
                 if airdrop {
                     p.airdrop_mint_price = (dd.clone(), price);
                     p.airdrop_mint_fee_bps = bps;
@@ -504,6 +571,9 @@ fn run_mint(minter: MinterKind, mode: MintMode, native: bool, price: u128, bps: 
                 }
             })?;
             let mut app = w.app;
+            if let Some(c) = devcfg.as_ref().filter(|c| c.by_sudo) {
+                oe_sudo_dev(&mut app, &w.factory, &c.address)?;
+            }
             let now = chain::now(&app);
             chain::set_time(&mut app, now + 200 * SEC);
             let payer = if airdrop || by_creator { wf::CREATOR } else { BUYER };
@@ -567,18 +637,30 @@ fn run_mint(minter: MinterKind, mode: MintMode, native: bool, price: u128, bps: 
                 } else {
                     OeWl::Plain
                 };
-                let w = OeWorld::new(cfg)?;
+                if let Some(c) = &devcfg {
+                    if !c.by_sudo {
+                        cfg.fp.dev = c.address.clone();
+                    }
+                    cfg.payment_address = c.with_payment_address;
+                }
+                let with_payaddr = cfg.payment_address;
+                let mut w = OeWorld::new(cfg)?;
+                if let Some(c) = devcfg.as_ref().filter(|c| c.by_sudo) {
+                    let f = w.factory.clone();
+                    oe_sudo_dev(&mut w.app, &f, &c.address)?;
+                }
                 let t0 = w.t0;
                 let proof = match &w.whitelist {
                     Some(a) if v.merkle => w.merkle.get(a.as_str()).and_then(|m| m.get(BUYER)).map(|x| x.0.clone()),
                     _ => None,
                 };
-                let devaddr = w.cfg.fp.dev.clone();
+                let devaddr = ledger_dev(&w.cfg.fp.dev);
+                let seller = if with_payaddr { PAYADDR } else { CREATOR };
                 let mut app = w.app;
                 chain::set_time(&mut app, t0 + 1500 * SEC);
                 rich(&mut app, BUYER, &funds);
                 let m = w.minter.clone();
-                let st = Stage { app, contract: m.to_string(), payer: BUYER.into(), dev: Some(devaddr), seller: Some(CREATOR.into()), overpay: None };
+                let st = Stage { app, contract: m.to_string(), payer: BUYER.into(), dev: devaddr, seller: Some(seller.into()), overpay: None };
                 let msg = public_mint_msg(minter, proof);
                 Ok(staged(st, move |app: &mut App| wf::exec_json(app, BUYER, &m, &msg, &funds)))
             } else {
@@ -609,6 +691,9 @@ pub struct Expect {
     pub fee: u128,
     pub required: u128,
     pub has_dev: bool,
+    /// the developer the ledger names is a well-formed account (or there is none to name):
+    /// nothing about it can stand in the way of a correctly paid call
+    pub dev_plain: bool,
 }
 
 fn ceil_div(a: u128, d: u128) -> u128 {
@@ -627,6 +712,7 @@ pub fn expectation(c: &SiteCase) -> Expect {
         fee,
         required: fee,
         has_dev: false,
+        dev_plain: true,
     };
     match &c.site {
         Site::Create { factory, fee_native, fee, .. } => {
@@ -641,6 +727,7 @@ pub fn expectation(c: &SiteCase) -> Expect {
                     fee: *fee,
                     required: *fee,
                     has_dev: false,
+                    dev_plain: true,
                 }
             }
         }
@@ -657,7 +744,7 @@ pub fn expectation(c: &SiteCase) -> Expect {
         Site::EnableUpdatable => fb("sg721-updatable", "enable_updatable", 1_500_000_000),
         Site::AirdropInit => fb("sg-eth-airdrop", "instantiate", 100_000_000),
         Site::BaseMint { price, bps } => fb("base-minter", "mint", price * *bps as u128 / 10_000),
-        Site::Mint { minter, mode, native, price, bps, .. } => Expect {
+        Site::Mint { minter, mode, native, price, bps, dev, .. } => Expect {
             contract_name: minter.name().to_string(),
             op: match mode {
                 MintMode::Public => "mint",
@@ -668,7 +755,9 @@ pub fn expectation(c: &SiteCase) -> Expect {
             denom: denom_of(*native).to_string(),
             fee: price * *bps as u128 / 10_000,
             required: *price,
-            has_dev: is_oe(*minter),
+            // the open-edition factories name a developer; an empty string names nobody
+            has_dev: is_oe(*minter) && dev.as_ref().map(|c| !c.address.is_empty()).unwrap_or(true),
+            dev_plain: !is_oe(*minter) || dev.as_ref().map(|c| plain_address(&c.address)).unwrap_or(true),
         },
     }
 }
@@ -746,7 +835,7 @@ pub fn monitor(c: &SiteCase, o: &Outcome) -> Vec<(String, String)> {
                 Schedule::MintFee { .. } => e.fee == 0 || (lq > 0 && lp > 0 && (!e.has_dev || dv > 0)),
                 Schedule::ToDao => lp > 0,
             };
-            if p == e.required && p > 0 && all_positive {
+            if p == e.required && p > 0 && all_positive && e.dev_plain {
                 bad!(
                     "sufficient-payment-rejected",
                     format!("exact payment {} {} of the fee was rejected: {}", p, e.denom, o.err.clone().unwrap_or_default()),
@@ -766,7 +855,17 @@ pub fn monitor(c: &SiteCase, o: &Outcome) -> Vec<(String, String)> {
     let fd = e.denom.as_str();
     let burned = o.delta(BURNED, fd);
     let pool = o.delta(chain::FAIRBURN_POOL, fd);
-    let devd = if o.dev.is_some() { o.delta(&dev, fd) } else { 0 };
+    // what the developer account moved by on account of the FEE: if the ledger's developer is
+    // also the seller it received the rest of the price too, if it is the payer it paid the price
+    let mut devd = if o.dev.is_some() { o.delta(&dev, fd) } else { 0 };
+    if o.dev.is_some() && matches!(e.schedule, Schedule::MintFee { .. }) {
+        if o.seller.as_deref() == Some(dev.as_str()) {
+            devd -= (e.required - e.fee) as i128;
+        }
+        if o.payer == dev {
+            devd += p as i128;
+        }
+    }
     let liq = o.delta(LIQUIDITY_DAO, fd);
     let lpd = o.delta(LAUNCHPAD_DAO, fd);
     if burned != b as i128 {
@@ -776,7 +875,10 @@ pub fn monitor(c: &SiteCase, o: &Outcome) -> Vec<(String, String)> {
         bad!("pool", format!("fair-burn pool received {} {}, the schedule gives it {} of a fee of {}", pool, fd, pl, e.fee));
     }
     if o.dev.is_some() && devd != dv as i128 {
-        bad!("developer", format!("developer received {} {}, the schedule gives {} of a fee of {}", devd, fd, dv, e.fee));
+        bad!(
+            "developer",
+            format!("the configured developer {:?} received {} {} of the fee, the schedule gives ceil(F/2) = {} of a fee of {}", dev, devd, fd, dv, e.fee)
+        );
     }
     if liq != lq as i128 {
         bad!("liquidity-dao", format!("liquidity DAO received {} {}, the schedule gives {} of a fee of {}", liq, fd, lq, e.fee));
@@ -859,9 +961,11 @@ pub fn coq_case(c: &SiteCase, o: &Outcome) -> String {
         Site::EnableUpdatable => "SEnableUpdatable".to_string(),
         Site::AirdropInit => "SAirdropInit".to_string(),
         Site::BaseMint { price, bps } => format!("(SBaseMint {} {})", price, bps),
-        Site::Mint { minter, native, price, bps, .. } => {
+        Site::Mint { minter, native, price, bps, dev, .. } => {
             let k = if is_oe(*minter) {
-                format!("(MsOpen {})", devid.unwrap_or(0))
+                // the developer as configured, and the chain's own answer about the string
+                let valid = dev.as_ref().map(|c| chain_accepts_address(&c.address)).unwrap_or(true);
+                format!("(MsOpen {} {})", devid.unwrap_or(0), coq_bool(valid))
             } else if *minter == MinterKind::TokenMerge {
                 "MsTokenMerge".to_string()
             } else {
@@ -1045,11 +1149,48 @@ pub fn gen_cases(thorough: bool, rng: &mut Rng) -> Vec<SiteCase> {
                     }
                     let all = *price == 30 || (*price == 100_000_000 && (native || thorough));
                     for f in payments(*price, denom_of(native), all) {
-                        push(Site::Mint { minter: *m, mode, native, price: *price, bps: *bps, by_creator: false }, f);
+                        push(Site::Mint { minter: *m, mode, native, price: *price, bps: *bps, by_creator: false, dev: None }, f);
                     }
                     // the creator buying from the own collection pays the same fee
                     if mode == MintMode::Public && (*price == 90 || *price == 100_000_000) {
-                        push(Site::Mint { minter: *m, mode, native, price: *price, bps: *bps, by_creator: true }, vec![(denom_of(native).to_string(), *price)]);
+                        push(Site::Mint { minter: *m, mode, native, price: *price, bps: *bps, by_creator: true, dev: None }, vec![(denom_of(native).to_string(), *price)]);
+                    }
+                }
+            }
+        }
+    }
+
+    // ---- the open-edition developer as governance configured it: a valid account, the
+    // creator (who is also the seller), the payment address, and strings the chain's address
+    // rules refuse or a careless proposal could contain; set at factory instantiate and by a
+    // sudo UpdateParams; on all three open-edition minters, every mint mode
+    let upper = wf::DEV_ADDRESS.to_uppercase();
+    let mixed = format!("S{}", &wf::DEV_ADDRESS[1..]);
+    let spaced = format!("{} ", wf::DEV_ADDRESS);
+    let long = "d".repeat(120);
+    let dev_strings: Vec<&str> = vec!["devaccount2", CREATOR, upper.as_str(), mixed.as_str(), "ab", "", "dev addr", spaced.as_str(), long.as_str()];
+    for m in MinterKind::ALL.iter().filter(|m| is_oe(**m)) {
+        for mode in [MintMode::Public, MintMode::Airdrop, MintMode::Whitelist] {
+            for (price, bps) in [(100_000_000u128, 1000u64), (30, 1000), (7, 1000)] {
+                for by_sudo in [false, true] {
+                    for a in &dev_strings {
+                        if !thorough && price == 7 && (by_sudo || mode != MintMode::Public) {
+                            continue;
+                        }
+                        let dev = Some(DevCfg { address: a.to_string(), by_sudo, with_payment_address: false });
+                        out.push(SiteCase {
+                            site: Site::Mint { minter: *m, mode, native: true, price, bps, by_creator: false, dev },
+                            funds: n(price),
+                            prior: None,
+                        });
+                    }
+                    if mode == MintMode::Whitelist && price != 7 {
+                        let dev = Some(DevCfg { address: PAYADDR.to_string(), by_sudo, with_payment_address: true });
+                        out.push(SiteCase {
+                            site: Site::Mint { minter: *m, mode, native: true, price, bps, by_creator: false, dev },
+                            funds: n(price),
+                            prior: None,
+                        });
                     }
                 }
             }
@@ -1097,7 +1238,7 @@ pub fn gen_cases(thorough: bool, rng: &mut Rng) -> Vec<SiteCase> {
                 if !native && !(thorough || (mode == MintMode::Public && !is_featured(*m))) {
                     continue;
                 }
-                shapes.push((Site::Mint { minter: *m, mode, native, price: 100_000_000, bps: 1000, by_creator: false }, 100_000_000, native, false));
+                shapes.push((Site::Mint { minter: *m, mode, native, price: 100_000_000, bps: 1000, by_creator: false, dev: None }, 100_000_000, native, false));
             }
         }
     }
